@@ -77,6 +77,22 @@ theorem can_always_finish {c : Cfg} {s : State} (ok : CfgOK c) (h : Reach c s) :
   have := quiescent_final ok (reach_inv ok hreach) hq
   exact ⟨tr, s', hr, this.1, this.2⟩
 
+/-- A callback that returns an error other than `context.Canceled` — a non-zero exit, a failing check, a
+    target that exceeded its own `timeout:` (even if that error wraps `context.DeadlineExceeded`) — is always
+    resolved: its `onComplete` is enabled right away and records the node as `failed`. Only a callback that
+    reports the cancellation of the walk is left without a completion. -/
+theorem failure_always_completes {c : Cfg} {s s' : State} {n : Node}
+    (h : step c s (.cbReturn n .fail) = some s') :
+    ∃ s'', step c s' (.complete n) = some s'' ∧ s''.phase n = .failed := by
+  obtain ⟨hsel, _, hr⟩ := step_cbReturn.mp h
+  rcases hr with ⟨hk, _⟩ | ⟨_, rfl⟩ | ⟨hk, _⟩
+  · cases hk
+  · refine ⟨completeFail c _ n, step_complete.mpr ⟨hsel, Or.inr ⟨by simp [Walker.set], rfl⟩⟩, ?_⟩
+    simp [Walker.set]
+  · cases hk
+
+example : (step (Ex.chain2 false) (Ex.after (Ex.chain2 false) [.wake 0]) (.cbReturn 0 .fail)).isSome = true := by decide
+
 /-- When `Walk` returns through the wait group without cancellation, every selected node is in the
     completion map (`ok` / `failed`) or was skipped (`exited`) below a failed transitive dependency;
     the returned map is the snapshot of exactly these phases. -/
